@@ -375,13 +375,18 @@ class ObjectCodeGenerator:
         reached_optional_field = self._context.reached_optional_field
         reached_dummy = self._context.reached_dummy
         start = True
+        has_default = False
 
         for protocol_case in protocol_cases:
             case_context = switch_code_generator.generate_case(protocol_case, start)
 
             reached_optional_field = reached_optional_field or case_context.reached_optional_field
             reached_dummy = reached_dummy or case_context.reached_dummy
+            has_default = has_default or get_boolean_attribute(protocol_case, "default")
             start = False
+
+        if not has_default:
+            switch_code_generator.generate_unmatched_guard(start)
 
         self._context.reached_optional_field = reached_optional_field
         self._context.reached_dummy = reached_dummy
